@@ -125,11 +125,9 @@ def holds (E : Ext) (x : Input) (o : Response) : Bool :=
 /-- the gate of proxy.go:268 is open -/
 def gateOpen (x : Input) : Bool := x.flag && canTransform (x.originHeaders.get kCacheControl)
 
-/-- C06-a: the substring tests put the client in the gzip class and the origin sent `br`:
-    Brotli is applied on top of Brotli and labelled once -/
-def inClass_C06_a (x : Input) : Bool :=
-  gateOpen x && !contains x.ae b!";" && !contains x.ae b!"br" && contains x.ae b!"gzip" &&
-    x.originHeaders.get kContentEncoding == b!"br"
+/- (C06-a — client in the gzip class, origin `br`: Brotli on top of Brotli, labelled once — was
+   repaired in util.GetRecompression; its class predicate is gone, the cell is covered by the
+   full-strength theorem `Props.C06.content_preserved` and by the regression stream kf.C06-a.) -/
 
 /-- does a Vary line mention accept-encoding the way the code tests it -/
 def mentionsAE (line : Bytes) : Bool := contains (toLower line) b!"accept-encoding"
@@ -156,7 +154,7 @@ def inClass_C06_c (x : Input) : Bool :=
 def inClass_C06_d (x : Input) : Bool := gateOpen x && noTransform x.originHeaders
 
 def classes (x : Input) : List String :=
-  (if inClass_C06_a x then ["C06-a"] else []) ++ (if inClass_C06_b x then ["C06-b"] else []) ++
+  (if inClass_C06_b x then ["C06-b"] else []) ++
   (if inClass_C06_c x then ["C06-c"] else []) ++ (if inClass_C06_d x then ["C06-d"] else [])
 
 end Spec.C06
